@@ -92,8 +92,17 @@ impl LspProject {
                 Ok(_) => vec![],
                 Err(diagnostics) => diagnostics
                     .into_iter()
-                    .filter(|d| d.file_ids().contains(&file_id))
-                    .map(|d| map_diagnostic(d, self.wrapped.as_ref()))
+                    // Publish the diagnostic at the label that is in this document (the primary
+                    // one when there is a choice): a range only means something in its own text
+                    .filter_map(|d| {
+                        let label = std::iter::once(&d.primary)
+                            .chain(d.secondary.iter())
+                            .find(|label| label.file_id == file_id)?;
+                        let range = map_label(label, self.wrapped.as_ref());
+                        let mut diagnostic = map_diagnostic(d, self.wrapped.as_ref());
+                        diagnostic.range = range;
+                        Some(diagnostic)
+                    })
                     .collect(),
             };
         } else {
